@@ -142,9 +142,11 @@ def run(ctx):
     if jm.loop is None or obj_try not in stmts_of(jm.loop):
         ctx.violated("R2", C, jm.where(obj_try), "the try statement around the objective call is not inside the attempt loop", key="handler-set")
     retry_types, retry_handlers, other_handlers = [], [], []
+    # falling out of a handler is the same as `continue` when the try statement ends the loop body
+    fall_continues = jm.loop is not None and jm.loop.body and jm.loop.body[-1] is obj_try and not obj_try.finalbody
     for h in obj_try.handlers:
         hp = body_paths(h.body, fn.args)
-        ends = {("continue" if (p.outcome == "fall" and p.events and p.events[-1].kind == "continue") else p.outcome) for p in hp}
+        ends = {("continue" if (p.outcome == "fall" and ((p.events and p.events[-1].kind == "continue") or (fall_continues and not (p.events and p.events[-1].kind == "break")))) else p.outcome) for p in hp}
         if ends == {"continue"}:
             retry_handlers.append((h, hp))
             retry_types.extend(handler_type_names(h))
@@ -236,7 +238,11 @@ def run(ctx):
         for p in hp:
             reraises = p.outcome == "raise" and (p.node is not None and isinstance(p.node, ast.Raise) and
                                                  (p.node.exc is None or (h.name and access_path(p.node.exc) == h.name)))
-            if not reraises and ok_r3:
+            if not reraises and ok_r3 and p.outcome == "fall" and set(handler_type_names(h)) <= want and None not in handler_type_names(h):
+                # a transient-failure handler that runs on into the rest of the loop body: neither a plain retry nor a swallow
+                ctx.inconclusive("R3", C, jm.where(h), "handler `except %s` falls through into the rest of the attempt loop body" % text(h.type), key="reraise")
+                ok_r3 = False
+            elif not reraises and ok_r3:
                 ctx.violated("R3", C, jm.where(h), "handler `except %s` does not re-raise on the path [%s]: a non-transient exception is swallowed%s"
                              % (text(h.type) if h.type else "", p.describe(5), " and the attempt loop goes on" if p.outcome == "fall" else ""), key="reraise")
                 ok_r3 = False
